@@ -74,7 +74,7 @@ const (
 // guest observation. All addresses are parameters (never constants).
 func buildGuest(c Config, importMem bool) []byte {
 	m := &wb.Module{}
-	lim := wb.Limits{Min: c.Min, Max: c.Max, HasMax: c.HasMax}
+	lim := wb.Limits{Min: c.Min, Max: c.Max, HasMax: c.HasMax, Shared: c.Shared}
 	if importMem {
 		m.Imports = append(m.Imports, wb.Import{Module: "owner", Name: "memory", Kind: wb.KindMemory, Mem: lim})
 	} else {
@@ -108,6 +108,13 @@ func buildGuest(c Config, importMem bool) []byte {
 	m.ExportFunc("growl", m.AddFunc([]byte{i32, i32, i32}, []byte{i64}, nil,
 		tail((&wb.Asm{}).LocalGet(1).Mem(opI32Load8U, 0, 0).Drop(), 0, 2)))
 	m.ExportFunc("grow0", m.AddFunc([]byte{i32, i32}, []byte{i64}, nil, tail(&wb.Asm{}, 0, 1)))
+	if c.Shared {
+		// memory.atomic.wait32(addr, expected, timeout) and memory.atomic.notify(addr, count), natural alignment
+		m.ExportFunc("wait32", m.AddFunc([]byte{i32, i32, i64}, []byte{i32}, nil,
+			(&wb.Asm{}).LocalGet(0).LocalGet(1).LocalGet(2).AtomicMem(0x01, 2, 0).B))
+		m.ExportFunc("notify", m.AddFunc([]byte{i32, i32}, []byte{i32}, nil,
+			(&wb.Asm{}).LocalGet(0).LocalGet(1).AtomicMem(0x00, 2, 0).B))
+	}
 	return m.Encode()
 }
 
@@ -146,6 +153,7 @@ type inst struct {
 	mi       *wasm.MemoryInstance
 	alloc    *vAlloc
 	expCalls []reCall // Reallocate calls the reference expects so far
+	base     *byte    // shared memory: the address of the buffer at instantiation (must never change)
 	m        model
 	path     []Op
 	cur      *Op
@@ -184,6 +192,9 @@ func (x *explorer) open() bool {
 	c := x.cfg
 	x.ctx = context.Background()
 	rc := engineConfig(x.engine).WithMemoryLimitPages(c.Limit).WithMemoryCapacityFromMax(c.CapMax)
+	if c.Shared {
+		rc = rc.WithCoreFeatures(api.CoreFeaturesV2 | experimental.CoreFeaturesThreads)
+	}
 	x.rt = wazero.NewRuntimeWithConfig(x.ctx, rc)
 	compile := func(bin []byte, who string) (wazero.CompiledModule, bool) {
 		cm, err := x.rt.CompileModule(x.ctx, bin)
@@ -238,6 +249,11 @@ func newGuest(name string, mod api.Module) *guest {
 	for _, f := range []string{"size", "grow", "l8", "l16", "l32", "l64", "s8", "s16", "s32", "s64", "growl", "grow0"} {
 		g.fn[f] = mod.ExportedFunction(f)
 	}
+	for _, f := range []string{"wait32", "notify"} {
+		if fn := mod.ExportedFunction(f); fn != nil {
+			g.fn[f] = fn
+		}
+	}
 	return g
 }
 
@@ -249,7 +265,7 @@ func (x *explorer) newInst() *inst {
 		if kind == "custom" { // replay files written before the allocator family existed
 			kind = "exact"
 		}
-		in.alloc = &vAlloc{kind: kind, refuseAbove: uint64(x.cfg.RefusePages()) * pageSize}
+		in.alloc = &vAlloc{kind: kind, fixed: x.cfg.Shared, refuseAbove: uint64(x.cfg.RefusePages()) * pageSize}
 		if kind == "recycled" {
 			if x.pool == nil {
 				x.pool = newSlabPool()
@@ -282,7 +298,10 @@ func (x *explorer) newInst() *inst {
 		}
 	}
 	in.mi = in.mem.(*wasm.MemoryInstance)
-	keepAlive(in.mi.Buffer)
+	if in.alloc == nil { // Go-heap buffers only: the custom allocators own (and unmap) their mappings
+		keepAlive(in.mi.Buffer)
+	}
+	in.base = unsafe.SliceData(in.mi.Buffer)
 	return in
 }
 
@@ -590,7 +609,16 @@ func (in *inst) checkSizes() {
 	if uint64(len(in.mi.Buffer)) != in.m.size() {
 		in.viol("impl:buffer-length:mismatch", fmt.Sprintf("len(Buffer)=%d, reference %d bytes", len(in.mi.Buffer), in.m.size()))
 	}
-	keepAlive(in.mi.Buffer)
+	if in.alloc == nil { // Go-heap buffers only: the custom allocators own (and unmap) their mappings
+		keepAlive(in.mi.Buffer)
+	}
+	if in.x.cfg.Shared {
+		in.eval()
+		if b := unsafe.SliceData(in.mi.Buffer); b != in.base {
+			in.viol("shared:buffer-moved", fmt.Sprintf("the buffer of a shared memory moved from %p to %p", in.base, b))
+			in.base = b
+		}
+	}
 	in.checkAllocator()
 }
 
@@ -627,7 +655,7 @@ func (in *inst) contentSig(off uint64, want, got byte) string {
 
 // checkContent compares the memory with the sparse model: completely for small memories, at all
 // modelled bytes plus zero probes for huge ones; a subset is also read through every guest module.
-func (in *inst) checkContent() {
+func (in *inst) checkContent(throughGuests bool) {
 	size := in.m.size()
 	if size == 0 {
 		return
@@ -698,6 +726,9 @@ func (in *inst) checkContent() {
 			}
 		}
 		in.x.res.out("content:sparse-scan")
+	}
+	if !throughGuests {
+		return
 	}
 	// through the guest: page-boundary bytes and the last byte
 	gs := map[uint64]bool{size - 1: true}
@@ -789,6 +820,52 @@ func (in *inst) probeGuest() {
 				if r.kind == "ok" && want {
 					in.m.putLE(addr, a.w, v)
 					in.verifyBytes(addr, a.w, in.x.engine+":"+in.place(g)+":guest-store", func() string { return fmt.Sprintf("%s(%d,%#x) in the %s module", a.st, addr, v, g.name) })
+				}
+			}
+		}
+	}
+}
+
+// probeAtomics (shared memories): memory.atomic.wait32 with a zero timeout and memory.atomic.notify at aligned
+// addresses around the size boundary and near 2^31 / 2^32 succeed iff address+4 <= size: wait32 returns 1
+// ("not-equal") when the expected value differs from the reference contents and 2 ("timed-out") when it
+// equals them; notify returns 0 woken waiters. Out of bounds they trap with the out-of-bounds sentinel.
+func (in *inst) probeAtomics() {
+	if !in.x.cfg.Shared {
+		return
+	}
+	size := in.m.size()
+	set := map[uint64]bool{0: true, 1 << 31: true, 1<<32 - 4: true}
+	for _, o := range []int64{int64(size) - 8, int64(size) - 4, int64(size)} {
+		if o >= 0 && o <= math.MaxUint32 {
+			set[uint64(o)] = true
+		}
+	}
+	for _, g := range in.guests() {
+		for _, addr := range sortedU64(set) {
+			want := in.m.inBounds(addr, 4)
+			cur := in.m.le(addr, 4)
+			for _, t := range []struct {
+				fn   string
+				args []uint64
+				res  uint64
+			}{
+				{"wait32", []uint64{addr, (cur + 1) & 0xffffffff, 0}, 1},
+				{"wait32", []uint64{addr, cur, 0}, 2},
+				{"notify", []uint64{addr, 1}, 0},
+			} {
+				in.eval()
+				r := in.call(g, t.fn, t.args...)
+				switch {
+				case (r.kind == "ok") != want || (r.kind != "ok" && r.kind != "oob"):
+					in.guestAccessViol(g, "atomic-"+t.fn, 4, addr, want, r)
+				case want && r.v != t.res:
+					in.viol(fmt.Sprintf("%s:%s:atomic-%s:wrong-result", in.x.engine, in.place(g), t.fn),
+						fmt.Sprintf("memory.atomic.%s%v in the %s module returns %d, reference %d", t.fn, t.args, g.name, r.v, t.res))
+				case want:
+					in.x.res.out("guest-atomic:ok")
+				default:
+					in.x.res.out("guest-atomic:oob-trap")
 				}
 			}
 		}
@@ -1027,10 +1104,11 @@ func (in *inst) writeMarkers() {
 func (in *inst) enter(full bool) {
 	in.checkSizes()
 	if full {
-		in.checkContent()
+		in.checkContent(true) // what the transition left: preservation and zero fill, also as the guests see it
 		in.probeHost()
 		in.probeGuest()
-		in.checkContent()
+		in.probeAtomics()
+		in.checkContent(false) // refused accesses changed nothing, accepted ones exactly what the model says
 	}
 	in.writeMarkers()
 }
